@@ -126,7 +126,7 @@ def produce(work, binary, tier, seed):
     cases, ngen = generate(work, seed)
     work.cases_path = cases
     trace = work.path("trace.ndjson")
-    rounds = 1 if tier == "quick" else 3
+    rounds = 1 if tier == "quick" else 6
     parts = []
     for i in range(rounds):
         part = work.path("trace%d.ndjson" % i)
